@@ -11,7 +11,8 @@ def mk_register_class(rd, idx, extra=None, base=None):
     from cfinterface.components.register import Register
     from cfinterface.components.line import Line
     _counter[0] += 1
-    ns = {"IDENTIFIER": rd["ident"], "IDENTIFIER_DIGITS": rd["digits"],
+    # "ident_re": the identifier as the user wrote it when it is a regular expression for the literal text "ident" (reading only)
+    ns = {"IDENTIFIER": rd.get("ident_re", rd["ident"]), "IDENTIFIER_DIGITS": rd["digits"],
           "LINE": Line([fl.mk_field(fd) for fd in rd["fields"]], delimiter=rd.get("delim")), "__slots__": [], "_verif_idx": idx}
     if extra:
         ns.update(extra)
@@ -148,6 +149,6 @@ def unambiguous(regdefs, binary=False):
 
 def ref_dispatch(regdefs, line):
     for i, r in enumerate(regdefs):
-        if re.search(re.escape(r["ident"]) if False else r["ident"], line[: r["digits"]]) is not None:
+        if re.search(r.get("ident_re", r["ident"]), line[: r["digits"]]) is not None:
             return i
     return -1
